@@ -370,7 +370,7 @@ func (op LinearQuantizer) Op_instruction_verilog_extra_modules(arch *Arch, flavo
 		}
 		correction += "\n"
 		correction += "endmodule\n"
-		moduleNames = append(moduleNames, correctionName)
+		moduleNames = append(moduleNames, correctionName+"_"+op.lqName)
 		moduleCodes = append(moduleCodes, correction)
 	}
 
